@@ -17,7 +17,7 @@ RULE = ("for model configuration classes (tags per predicate class x rated power
 ASSUMPTIONS = ["equality is NaN-aware; where the bulk read reports None the single read may return None or raise ValueError",
                "ids listed twice in a table (ET meter_e_total_exp/imp: float and 8-byte variants) resolve to the later definition in "
                "both paths"]
-MUST = ["ids_compared", "calculated_ids_compared", "bitmap_ids_compared", "four_byte_meter_ids_compared", "none_in_bulk",
+MUST = ["impossible_clock_contents", "ids_compared", "calculated_ids_compared", "bitmap_ids_compared", "four_byte_meter_ids_compared", "none_in_bulk",
         "history_battery_appears", "history_block_refused_later", "history_device_info_rerun", "history_block_served_later",
         "history_battery_disappears", "configs_run"]
 EXHAUSTIVE = {"quick": False, "thorough": False}
@@ -79,6 +79,13 @@ def run_cfg(cfg, part, port, seed, history=None):
     style = rnd.choice(("random", "mixed", "sentinel", "random", "ff"))
     sim = configs.make_sim(cfg, rnd=rnd, style=style)
     fam = cfg["family"]
+    clock = rnd.choice((None, None, bytes(6), bytes([24, 13, 1, 0, 0, 0]), bytes([24, 2, 30, 12, 0, 0]), bytes([24, 5, 17, 24, 0, 0]),
+                        bytes([24, 5, 32, 1, 1, 1]), b"\xff" * 6, bytes([24, 5, 17, 12, 60, 0])))
+    if clock is not None and fam in ("ET", "DT"):
+        # an inverter whose clock was never set / holds an impossible date: the bulk read reports None, the single read raises ValueError
+        sim.set_bytes(35100 if fam == "ET" else 30100, clock)
+        part.count("impossible_clock_contents")
+        style += " clock=" + clock.hex()
     tag = f"{fam} {cfg['tag']} rated={cfg['rated']} refused={cfg['refused']} battery={cfg['battery']} port={port} {style}"
     case = {"config": cfg, "port": port, "seed": seed, "history": history}
 
